@@ -2,7 +2,7 @@ SPEC = {
     'id': 'C33',
     'harness': 'hC33',
     'coq_dir': 'C33',
-    'claimed': False,
+    'claimed': True,
     'theorems': ['C33_recovered_paths_total', 'C33_recovered_guard_example',
                  'C33_no_panic_outside_recover', 'C33_no_panic_example', 'C33_validator_optional_example',
                  'C33_crash_characterisation', 'C33_loop_never_panics',
